@@ -102,6 +102,15 @@ func main() {
 // readReplayInputs reads a JSON-lines file and hands each line's "input" (or the
 // whole line if it has no such key) to f.
 func readReplayInputs(path string, f func(raw json.RawMessage) error) error {
+	// a replay file written by the orchestrator is one indented JSON object with an "input" key
+	if whole, err := os.ReadFile(path); err == nil {
+		var probe map[string]json.RawMessage
+		if json.Unmarshal(whole, &probe) == nil {
+			if in, ok := probe["input"]; ok {
+				return f(in)
+			}
+		}
+	}
 	fh, err := os.Open(path)
 	if err != nil {
 		return err
